@@ -1,6 +1,65 @@
+/* Ops that need no repo statics: reference hashes from nettle (the Lean
+   executable hashes are compared with these on every run). */
 #include "interpose.h"
 #include "hcommon.h"
+#include <nettle/hmac.h>
+#include <nettle/md5.h>
+#include <nettle/sha2.h>
+
 int h_misc_op(const char *op, int argc, char **argv, FILE *out) {
-    (void)op; (void)argc; (void)argv; (void)out;
+    if (!strcmp(op, "md5") && argc == 1) {
+        int l;
+        uint8_t *m = hx(argv[0], &l), d[16];
+        struct md5_ctx c;
+        if (l < 0)
+            return 0;
+        md5_init(&c);
+        md5_update(&c, l, m);
+        md5_digest(&c, 16, d);
+        puthex(out, d, 16);
+        free(m);
+        return 1;
+    }
+    if (!strcmp(op, "hmacmd5") && argc == 2) {
+        int lk, l;
+        uint8_t *k = hx(argv[0], &lk), *m = hx(argv[1], &l), d[16];
+        struct hmac_md5_ctx c;
+        if (l < 0 || lk < 0)
+            return 0;
+        hmac_md5_set_key(&c, lk, k);
+        hmac_md5_update(&c, l, m);
+        hmac_md5_digest(&c, 16, d);
+        puthex(out, d, 16);
+        free(m);
+        free(k);
+        return 1;
+    }
+    if (!strcmp(op, "sha256") && argc == 1) {
+        int l;
+        uint8_t *m = hx(argv[0], &l), d[32];
+        struct sha256_ctx c;
+        if (l < 0)
+            return 0;
+        sha256_init(&c);
+        sha256_update(&c, l, m);
+        sha256_digest(&c, 32, d);
+        puthex(out, d, 32);
+        free(m);
+        return 1;
+    }
+    if (!strcmp(op, "hmacsha256") && argc == 2) {
+        int lk, l;
+        uint8_t *k = hx(argv[0], &lk), *m = hx(argv[1], &l), d[32];
+        struct hmac_sha256_ctx c;
+        if (l < 0 || lk < 0)
+            return 0;
+        hmac_sha256_set_key(&c, lk, k);
+        hmac_sha256_update(&c, l, m);
+        hmac_sha256_digest(&c, 32, d);
+        puthex(out, d, 32);
+        free(m);
+        free(k);
+        return 1;
+    }
     return 0;
 }
